@@ -16,7 +16,8 @@ LEVEL_TEXT = ("Phase-structure analysis of the lazy interpreter (MIR): (E6.p) al
               "(C06.L) make a local value independent of scoped variables; (E6.a) adding a scoped variable after its name was forced is an "
               "error, never a silent drop; (E5) the deferred stores are append-only; (E4) no hash-iteration order leaks into what is "
               "evaluated or which error is reported; (E5.add) attribute conflicts are symmetric (a conflict is reported iff the values "
-              "differ, whichever comes first).  Together these are the structure that makes the result independent of stanza order.")
+              "differ, whichever comes first); (C03.C) no query cursor is restricted (a match limit drops pending matches by pattern "
+              "index, i.e. by stanza position).  Together these are the structure that makes the result independent of stanza order.")
 LEVEL_NOTE = ("Not decided: equality of results over all permutations (a schedule-quantified behavioural statement).  Node numbering "
               "legitimately depends on order and is outside the property.")
 
@@ -102,6 +103,9 @@ def lazy_routing(prog, rep):
 def run(prog, rep):
     C02.lazy_phases(prog, rep)
     lazy_routing(prog, rep)
+    # a restricted query cursor drops matches depending on how many are pending, which depends on stanza order
+    from . import C03
+    C03.capture_and_cursor(prog, rep)
     # E6.f: locality (checker) + eager set + forcing only via evaluate_eager — C06's rules restricted to what matters here
     C06_rep = _Filter(rep, lambda key: True)
     _run_c06_subset(prog, rep)
